@@ -74,21 +74,53 @@ class ShapeFlow:
                 return not sh.startswith("Collection:") or sh[11:] in names
         return frozenset(x for x in shapes if keep(x))
 
+    # The abstract value is a set of (shape, benv) pairs: benv records the constants last stored into multiply-assigned boolean
+    # locals, so `let ok = matches!(typ, A | B); if !ok { return Err }` is as exact as the `match typ { A | B => {}, _ => return Err }`
+    # it replaces (the boolean is the only carrier of the shape test across the join).
+    def _bool_locals(self):
+        b = self.b
+        out = set()
+        for l in range(len(b.locals)):
+            if b.local_ty(l) == "bool" and (l > b.argc or l == 0) and b.single_def(l) is None and len(b.defs.get(l, ())) > 1:
+                out.add(l)
+        return out
+
+    @staticmethod
+    def _set_env(elems, l, v):
+        out = set()
+        for sh, env in elems:
+            e2 = frozenset(x for x in env if x[0] != l)
+            if v is not None:
+                e2 = e2 | {(l, v)}
+            out.add((sh, e2))
+        return frozenset(out)
+
     def run(self):
         from collections import deque
         b = self.b
-        self.state_in = {0: frozenset(self.universe)}
+        bools = self._bool_locals()
+        self.state_in = {0: frozenset((sh, frozenset()) for sh in self.universe)}
         wl = deque([0])
         while wl:
             bb = wl.popleft()
             cur = self.state_in[bb]
+            for st in b.stmts(bb):
+                if st[0] == "A" and not st[1][1] and st[1][0] in bools:
+                    rv = st[2]
+                    v = int(rv[1][3]) if rv[0] == "use" and rv[1][0] == "k" and rv[1][1] == "int" else None
+                    cur = self._set_env(cur, st[1][0], v)
             t = b.term(bb)
             outs = []
             handled = False
+            if t[0] == "call" and not t[3][1] and t[3][0] in bools:
+                cur = self._set_env(cur, t[3][0], None)
             if t[0] == "switch":
                 e = self.df.expr_of_operand(t[1])
+                flip = False
+                while e[0] == "not":
+                    e, flip = e[1], not flip
                 level = None
-                if e[0] == "disc":
+                if e[0] == "disc" and not flip:
                     if e[1] == self.tpath:
                         level, adt = "ct", CT
                     elif e[1] == self.p_nat:
@@ -99,12 +131,34 @@ class ShapeFlow:
                     handled = True
                     allv = {int(v["discr"]): v["name"] for v in self.facts.adt(adt)["variants"]}
                     listed = set()
+
+                    def restr(names):
+                        keep = self._restrict(frozenset(sh for sh, _ in cur), level, names)
+                        return frozenset(x for x in cur if x[0] in keep)
                     for v, tg in t[2]:
                         nm = allv.get(int(v))
                         listed.add(nm)
-                        outs.append((tg, self._restrict(cur, level, {nm})))
+                        outs.append((tg, restr({nm})))
                     rest = set(allv.values()) - listed
-                    outs.append((t[3], self._restrict(cur, level, rest)))
+                    outs.append((t[3], restr(rest)))
+                elif e[0] == "val" and e[1][1] == () and e[1][0] in bools:
+                    handled = True
+                    l = e[1][0]
+                    listed = set()
+
+                    def with_val(vals):
+                        out = set()
+                        for sh, env in cur:
+                            known = [x[1] for x in env if x[0] == l]
+                            if not known or known[0] in vals:
+                                out.add((sh, env))
+                        return frozenset(out)
+                    for v, tg in t[2]:
+                        val = int(v)
+                        val = (1 - val) if flip and val in (0, 1) else val
+                        listed.add(val)
+                        outs.append((tg, with_val({val})))
+                    outs.append((t[3], with_val({0, 1} - listed)))
             if not handled:
                 outs = [(s_, cur) for s_ in b.succ[bb]]
             for tg, sh in outs:
@@ -117,7 +171,7 @@ class ShapeFlow:
                     wl.append(tg)
 
     def at(self, bb):
-        return set(self.state_in.get(bb, frozenset()))
+        return {sh for sh, _ in self.state_in.get(bb, frozenset())}
 
 
 _sf_cache = {}
